@@ -157,8 +157,19 @@ Definition rows_subset (a b : list row) : bool := forallb (fun r => row_mem r b)
 Definition rows_eq (a b : list row) : bool := rows_subset a b && rows_subset b a.
 Definition rows_diff (a b : list row) : list row := filter (fun r => negb (row_mem r b)) a.
 
-(* one correspondence case: initial hierarchy, replacement sequence, rows observed on the implementation *)
-Definition case_ok (c : hier * list (name * hier) * list row) : bool :=
-  let '(H, rs, obs) := c in
-  rows_eq (views (meta (replace_seq_hier H rs))) obs &&
-  rows_eq (views (replace_seq_meta (meta H) rs)) obs.
+(* the same comparison bucketed by the leading tag of a row (quadratic only within one kind of row) *)
+Definition tags : list string :=
+  ["comp"; "sig"; "meth"; "blk"; "rd"; "wr"; "call"; "UU"; "RDU"; "WRU"; "M"; "adj"]%string.
+Definition tag_of (r : row) : string := match r with t :: _ => t | [] => EmptyString end.
+Definition bucket (t : string) (l : list row) : list row := filter (fun r => String.eqb (tag_of r) t) l.
+Definition rows_subset_fast (a b : list row) : bool :=
+  forallb (fun r => existsb (String.eqb (tag_of r)) tags) a &&
+  forallb (fun t => let bb := bucket t b in forallb (fun r => row_mem r bb) (bucket t a)) tags.
+Definition rows_eq_fast (a b : list row) : bool := rows_subset_fast a b && rows_subset_fast b a.
+
+(* one correspondence case: initial hierarchy, replacement sequence, rows observed on the implementation.
+   both = also evaluate the metadata-level algebra (replace_seq_meta), not only meta of the substituted hierarchy *)
+Definition case_ok (c : hier * list (name * hier) * list row * bool) : bool :=
+  let '(H, rs, obs, both) := c in
+  rows_eq_fast (views (meta (replace_seq_hier H rs))) obs &&
+  (negb both || rows_eq_fast (views (replace_seq_meta (meta H) rs)) obs).
